@@ -255,6 +255,38 @@ def check_value(st, slot, syms, kind, baseline, failing_single=None, remote="ups
     return problem[0]
 
 
+def empty_template(st, slot, kind, baseline):
+    """The EMPTY template, given explicitly: `--tag-message ''` / `tag_message = ""` mean a lightweight tag (README), `-c ''` an empty
+    commit message argument; the configured template must not come back in its place."""
+    if slot == "commit-config":
+        return  # (an empty configured commit message falls back to the default message: C18's matter)
+    r = run(slot, "", kind)
+    if r is None:
+        return
+    o, fake, _path = r
+    st.evaluations += 1
+    st.transitions += 1
+    got = normalised_effects(fake)
+    want = []
+    for argv in baseline:
+        if slot.startswith("tag") and argv[:2] == ["git", "tag"]:
+            want.append(["git", "tag", NEW])
+        elif slot == "commit-cli" and argv[:2] == ["git", "commit"]:
+            want.append([a if a != BENIGN else "" for a in argv])
+        else:
+            want.append(list(argv))
+    case = {"slot": slot, "symbols": [], "vcs": kind, "empty_template": True}
+    st.observe((slot, "empty", o.exit, o.crashed, got))
+    st.state(slot, kind, "", "empty")
+    st.nontriv(slot, "")
+    if o.exit != 0 or o.crashed or got != want:
+        st.outcomes["violation"] += 1
+        st.violation(f"C12:{slot}:explicitly-empty-template", case, {"effects": got, "expected": want, "exit": o.exit, "crashed": o.crashed})
+    else:
+        st.validated += 1
+        st.outcomes[f"verbatim:{slot}"] += 1
+
+
 def attribute(slot, syms, failing):
     """failing = (anywhere, edge): symbols that break the slot in the middle of benign text / only at its start or end."""
     anywhere, edge = failing if failing else (set(), set())
@@ -316,6 +348,8 @@ def run_chunk(chunk):
                 raise pool.HarnessError(f"baseline run for idioms {slot}/{remote} failed: exit={o.exit} {baseline}")
             for msg in MESSAGE_IDIOMS:
                 check_value(st, slot, [msg], kind, baseline, remote=remote)
+            if remote == "upstream":
+                empty_template(st, slot, kind, baseline)
         os.chdir("/")
         return st
     alpha = {"strings": SIGMA + (CLI_EXTRA if slot.endswith("cli") else []), "paths": PATH_SIGMA, "pattern": PATTERN_CHARS}[mode]
@@ -410,6 +444,10 @@ def replay(case, st):
         for part in range(8):
             real_git(st, part)
     else:
-        o, fake, _p = run(case["slot"], BENIGN, case["vcs"])
-        check_value(st, case["slot"], case["symbols"], case["vcs"], normalised_effects(fake), ({"'"}, {"'", '"', " "}))
+        remote = case.get("remote", "upstream")
+        o, fake, _p = run(case["slot"], BENIGN, case["vcs"], remote=remote)
+        if case.get("empty_template"):
+            empty_template(st, case["slot"], case["vcs"], normalised_effects(fake))
+        else:
+            check_value(st, case["slot"], case["symbols"], case["vcs"], normalised_effects(fake), ({"'"}, {"'", '"', " "}), remote=remote)
     os.chdir("/")
